@@ -105,3 +105,16 @@ Theorem C16_monitor_rpc_sound : forall w acts,
   WorldMon.rpc_walk (option_map MonSound.psug_of (c_sug w)) (WorldC.project w) (MonSound.msteps w acts) = true.
 Proof. exact MonSound.rpc_walk_model. Qed.
 Print Assumptions C16_monitor_rpc_sound.
+
+(* The repair of F18 does not resurrect the algorithm service of a completed experiment: in any reachable state whose stored
+   experiment carries a verdict that is not enabled to restart, an experiment reconcile -- whatever stale copies it reads --
+   plans no suggestion-status write from ReconcileExperiment (the repair branch is not taken): the caches always justify the
+   verdict again, so ReconcileTrials is not entered. *)
+From KV Require Proofs.WorldNoCreate.
+Theorem C16_repair_not_for_settled : forall c acts ce st1 e,
+  valid_cfg c -> no_teardown acts ->
+  w_exp (run c acts) = Some e -> e_completed (e_st e) = true -> restart_enabled_e c e = false ->
+  c_exp (run c acts) = Some ce ->
+  existsb WorldNoCreate.is_sug_status (plan_exp_reconcile (run c acts) ce st1) = false.
+Proof. exact WorldNoCreate.repair_branch_not_for_settled. Qed.
+Print Assumptions C16_repair_not_for_settled.
